@@ -186,4 +186,17 @@ CHECKS = {
                      "a descriptor is closed only after qb_loop_poll_del succeeded for it; signals are raised from the loop thread and only while a handler for them is registered",
                      "signal handlers are only added while no delivery of that signal is under way"],
     ),
+    "C09": dict(
+        title="timers never fire early; the loop never sleeps past the next expiry",
+        level="exploration",
+        design_ref="DESIGN.md section 4, C09",
+        technique="stateful property testing under a virtual clock: generated timer histories over the full 64-bit duration range, invariants over every requested poll timeout and every dispatch",
+        level_text="timer add/delete/query/job histories (from outside the loop and from callbacks) with durations from 0 to 2^64-1 ns run under an interposed clock (optional tick per read) and interposed "
+                   "epoll_wait (sleeping advances virtual time, possibly less than asked); checked: no dispatch before add+d, expiry order per priority, every poll timeout requested while a timer is pending is finite, "
+                   "non-negative and ends no later than the earliest expiry + slack (1 ms + ticks, or 50 ms after jobs), bounded lateness, queries non-zero exactly while pending",
+        level_note="trusted: the timer model; durations beyond one hour are judged by the requested timeouts only (the virtual run does not reach their expiry)",
+        stages=[rnd("timers", "c09", 100000, 3000000, essential=["three_pending_delete_nonhead", "duration_beyond_31bit_ms", "duration_beyond_32bit_ms", "duration_near_2_63", "duration_near_2_64",
+                                                                   "zero_duration", "early_wakeup", "clock_tick", "job_throttle_seen", "delete_from_callback", "query_pending", "query_after_fire", "many_pending"])],
+        assumptions=["the monotonic clock never goes backwards", "a timer whose expiry equals the current time to the nanosecond may be dispatched on the next iteration (strict comparison)"],
+    ),
 }
